@@ -299,7 +299,113 @@ fn chains(core: &[Simple], len: usize) -> Vec<SelList> {
     v
 }
 
+/// Documents beyond a handful of nodes: sibling counts, nesting depths, name lengths and attribute
+/// counts just below, at and above the implementation's thresholds (32/64-entry sets, the
+/// 12-character name hash, stack growth steps), all matched by one selector program.
+fn scaled_slice(ctx: &Ctx) {
+    let open = |name: &str, attrs: &[(String, String)]| {
+        let raw: String = attrs.iter().map(|(k, v)| if v.contains(' ') || v.is_empty() { format!(" {k}=\"{v}\"") } else { format!(" {k}={v}") }).collect();
+        DEv::Open { name: name.into(), attrs: AttrSet { raw, parsed: attrs.to_vec() }, slash: false }
+    };
+    let kv = |k: &str, v: &str| (k.to_string(), v.to_string());
+    let mut docs: Vec<(String, Vec<DEv>)> = vec![];
+    let counts: &[usize] = if ctx.quick() { &[31, 32, 33, 64, 65, 130] } else { &[7, 8, 9, 15, 16, 17, 31, 32, 33, 63, 64, 65, 127, 128, 129, 257, 600] };
+    for &n in counts {
+        // siblings
+        let mut d = vec![DEv::open("q")];
+        for i in 0..n {
+            d.push(open(if i % 5 == 4 { "q" } else { "a" }, &[kv("class", &format!("c{} d", i % 3))]));
+            d.push(DEv::close(if i % 5 == 4 { "q" } else { "a" }));
+        }
+        d.push(DEv::close("q"));
+        docs.push((format!("{n} siblings"), d));
+        // nesting
+        let mut d = vec![];
+        for _ in 0..n {
+            d.push(DEv::open("a"));
+        }
+        d.push(open("q", &[kv("class", "c"), kv("id", "i")]));
+        d.push(DEv::close("q"));
+        d.push(open("a", &[kv("k", "v")]));
+        for _ in 0..n / 2 {
+            d.push(DEv::close("a"));
+        }
+        d.push(open("q", &[kv("class", "c1")]));
+        docs.push((format!("nesting depth {n}"), d));
+        // attributes
+        let mut at: Vec<(String, String)> = (0..n).map(|i| kv(&format!("k{i}"), "v")).collect();
+        at.push(kv("id", "i"));
+        at.push(kv("class", &(0..n).map(|i| format!("c{i}")).collect::<Vec<_>>().join(" ")));
+        docs.push((format!("{n} attributes and classes"), vec![open("a", &at), DEv::close("a")]));
+        // long value with the interesting part at the end, whitespace runs
+        docs.push((format!("attribute value of {n}+ bytes"), vec![open("a", &[kv("k", &format!("v{}   w", "x".repeat(n)))]), DEv::close("a"), open("a", &[kv("k", &format!("{}-x", "v".repeat(n)))])]));
+    }
+    for n in [11usize, 12, 13, 14, 20] {
+        let name = "x".repeat(n);
+        docs.push((format!("names of {n} characters"), vec![open(&name, &[kv(&"k".repeat(n), "v"), kv("class", "c1")]), DEv::open("a"), DEv::close(&name), open(&format!("{}y", "x".repeat(n - 1)), &[kv(&format!("{}j", "k".repeat(n - 1)), "v")])]));
+    }
+    let one = |v: Vec<Simple>| SelList::one(Complex::single(Compound(v)));
+    let chain = |cs: Vec<Vec<Simple>>, combs: Vec<Comb>| SelList::one(Complex { compounds: cs.into_iter().map(Compound).collect(), combs });
+    let mut sels: Vec<SelList> = vec![
+        one(vec![ty("a"), Simple::NthChild(0, 32)]), one(vec![ty("a"), Simple::NthChild(0, 33)]), one(vec![Simple::NthChild(2, 1)]), one(vec![Simple::NthChild(0, 64)]),
+        one(vec![ty("a"), Simple::NthOfType(0, 65)]), one(vec![ty("q"), Simple::NthOfType(3, 2)]), one(vec![Simple::NthOfType(0, 33)]), one(vec![Simple::NthChild(0, 129)]),
+        one(vec![Simple::Class("c1".into())]), one(vec![Simple::Class("d".into()), Simple::NthChild(0, 33)]), one(vec![Simple::FirstOfType]),
+        chain(vec![vec![ty("q")], vec![ty("a"), Simple::Class("c2".into())]], vec![Comb::Descendant]), chain(vec![vec![ty("q")], vec![ty("a")]], vec![Comb::Child]),
+        chain(vec![vec![ty("a")], vec![ty("a")], vec![ty("a")], vec![ty("q")]], vec![Comb::Descendant, Comb::Descendant, Comb::Descendant]),
+        chain(vec![vec![ty("a")], vec![ty("q"), Simple::Class("c".into())]], vec![Comb::Child]), chain(vec![vec![ty("a")], vec![ty("q"), Simple::Id("i".into())]], vec![Comb::Descendant]),
+        chain(vec![vec![ty("a"), Simple::AttrExists("k".into())], vec![ty("q")]], vec![Comb::Descendant]),
+        one(vec![Simple::Id("i".into())]), one(vec![not1(Simple::Class("c1".into()))]), one(vec![Simple::Universal]),
+        one(vec![attr("k", AttrOp::Includes, "w", Case::Default)]), one(vec![attr("k", AttrOp::Prefix, "vx", Case::Default)]), one(vec![attr("k", AttrOp::Suffix, "  w", Case::Default)]),
+        one(vec![attr("k", AttrOp::Substr, "x   ", Case::Default)]), one(vec![attr("k", AttrOp::Dash, &"v".repeat(33), Case::Default)]), one(vec![attr("k", AttrOp::Dash, &"v".repeat(64), Case::Default)]),
+    ];
+    for n in [30usize, 31, 32, 33, 63, 64, 65, 129] {
+        sels.push(one(vec![Simple::Class(format!("c{n}"))]));
+        sels.push(one(vec![Simple::AttrExists(format!("k{n}"))]));
+        sels.push(one(vec![attr("class", AttrOp::Includes, &format!("c{n}"), Case::Default)]));
+    }
+    for n in [11usize, 12, 13, 14, 20] {
+        sels.push(one(vec![ty(&"x".repeat(n))]));
+        sels.push(one(vec![Simple::AttrExists("k".repeat(n))]));
+        sels.push(chain(vec![vec![ty(&"x".repeat(n))], vec![ty("a")]], vec![Comb::Child]));
+    }
+    let strs: Vec<String> = sels.iter().map(|s| s.render()).collect();
+    let p = make_cfg(&strs).unwrap_or_else(|e| panic!("scaled selector group does not parse: {e}"));
+    par_for(docs.len(), 1, |di| {
+        if ctx.over_time() {
+            return;
+        }
+        let (label, evs) = &docs[di];
+        let tree = build_tree(evs);
+        if !tree.in_domain {
+            return;
+        }
+        let r = render(evs);
+        for cut in [false, true] {
+            let (fails, calls) = check_group_on(&p, &sels, evs, &r, &tree, cut, if cut { None } else { Some((ctx, &strs)) });
+            ctx.exec(calls);
+            ctx.validated(sels.len() as u64);
+            for (i, msg, known) in fails {
+                let case = json!({"selectors": sels, "selector_strings": strs, "document": label, "doc": evs, "cut": cut, "index": i});
+                let c2 = case.clone();
+                if known {
+                    ctx.known_or_violation("not-compound-flattened", msg, case, &|| replay(&c2));
+                } else {
+                    ctx.violation(msg, case, &|| replay(&c2));
+                }
+            }
+        }
+        ctx.states.insert(digest(&r.bytes));
+        if di % 13 == 1 {
+            ctx.sample(json!({"slice": "scaled documents", "document": label}));
+        }
+    });
+    if !ctx.capped.load(std::sync::atomic::Ordering::Relaxed) {
+        ctx.level_done(&format!("{} scaled documents (sibling counts, nesting depths, attribute / class counts, value and name lengths around 12, 32, 64, 128) x one program of {} selectors x {{one write, cut inside every start tag}}", docs.len(), sels.len()));
+    }
+}
+
 pub fn run_check(ctx: &Ctx) -> i32 {
+    scaled_slice(ctx);
     let full = doc_alphabet();
     let red = doc_alphabet_reduced();
     let s1 = simple_lists(simples_full());
